@@ -47,6 +47,7 @@ type RtspClient struct {
 	Status       []int // status code of every response, in order
 	Challenge    string
 	SdpRecv      string
+	DescribeStep int // kernel step at which the first DESCRIBE was handed to the connection (0: none)
 	DescribeOK   bool
 
 	buf   []byte
@@ -124,6 +125,7 @@ func (a *RtspClient) afterOptions() {
 		return
 	}
 	a.stage = "describe"
+	a.DescribeStep = a.K.Step()
 	var hdr []string
 	switch a.ForceAuth {
 	case "basic":
